@@ -471,7 +471,6 @@ def relocated_loader(seed):
     lo, hi = 0x0556, 0x0605
     code = list(rom[lo:hi])
     # absolute operands that point inside the routine: CALL/JP nn, JP cc,nn
-    i = 0
     from ..refs import z80ref
     img = list(rom) + [0] * 49152
     pc = lo
@@ -528,10 +527,10 @@ TAPES = ('k48', 'k48clear', 'turbo', 'k128')
 
 
 def build_tape(name, seed, d):
-    """Returns dict(tape, start, regions=[(addr, bytes)], args=[...])."""
+    """Returns dict(tape=path, start=address tap2sna must stop at, plan=C12 plan or None, machine, seed, ...)."""
     if name in ('k48', 'k48clear', 'k128'):
         if name == 'k48':
-            cfg = dict(c12.DEF48, length=256, stack='end+14')
+            cfg = dict(c12.DEF48, length=256, stack='end+2')
         elif name == 'k48clear':
             cfg = dict(c12.DEF48, length=15, clear='begin-1', fmt='pzx', start='last')
         else:
